@@ -500,6 +500,14 @@ def r1_materials(ctx, res):
                             'keeps the input\'s own Material object and '
                             'updates it in %s' % upd,
                             key='%s | keeps %s' % (fi.full, src(st.value)))
+    restore_rule(ctx, 'C16.R1')
+    ctx.extra['input_material_handoffs_examined'] = n
+
+
+def restore_rule(ctx, rule):
+    """Q_equals_mCdT borrows a Material (the template's coolant): it must
+    hand it back at the inlet temperature on every path (shared with C06)."""
+    repo = ctx.repo
     # save/restore callee really restores
     q = repo.func('utils', 'Q_equals_mCdT')
     g = cfg_of(q)
@@ -513,11 +521,10 @@ def r1_materials(ctx, res):
         for c in ast.walk(u.stmt))]
     others = [u for u in ups if u not in restores]
     ok = bool(restores) and all(g.must_pass(o, restores) for o in others)
-    ctx.require(ok, 'C16.R1', q, q.node,
+    ctx.require(ok, rule, q, q.node,
                 'Q_equals_mCdT must restore the material to the inlet '
                 'temperature after its last update on every path',
                 key=q.full + ' | save/restore')
-    ctx.extra['input_material_handoffs_examined'] = n
 
 
 # ---------------------------------------------------------------------------
